@@ -204,9 +204,11 @@ pub fn collect_cycles() {
             return;
         }
 
+        #[cfg(kani)] let __um = crate::verif::unwind_mark(); // verification hook (H4): emulated unwinding, /verif/DESIGN.md 2.5
         let _ = POSSIBLE_CYCLES.try_with(|pc| {
             collect(state, pc);
         });
+        #[cfg(kani)] if crate::verif::unwound(__um) { return; } // verification hook (H4): emulated unwinding, /verif/DESIGN.md 2.5
 
         #[cfg(feature = "auto-collect")]
         adjust_trigger_point(state);
@@ -222,7 +224,9 @@ pub(crate) fn trigger_collection(state: &State) {
 
     let _ = POSSIBLE_CYCLES.try_with(|pc| {
         if config::config(|config| config.should_collect(state, pc)).unwrap_or(false) {
+            #[cfg(kani)] let __um = crate::verif::unwind_mark(); // verification hook (H4): emulated unwinding, /verif/DESIGN.md 2.5
             collect(state, pc);
+            #[cfg(kani)] if crate::verif::unwound(__um) { return; } // verification hook (H4): emulated unwinding, /verif/DESIGN.md 2.5
 
             adjust_trigger_point(state);
         }
@@ -250,6 +254,7 @@ fn collect(state: &State, possible_cycles: &PossibleCycles) {
     }
 
     let _drop_guard = DropGuard { state };
+    #[cfg(kani)] let __um = crate::verif::unwind_mark(); // verification hook (H4): emulated unwinding, /verif/DESIGN.md 2.5
 
     #[cfg(feature = "finalization")]
     for _ in 0..10 {
@@ -275,6 +280,7 @@ fn collect(state: &State, possible_cycles: &PossibleCycles) {
         }
 
         __collect(state, possible_cycles);
+        #[cfg(kani)] if crate::verif::unwound(__um) { return; } // verification hook (H4): emulated unwinding, /verif/DESIGN.md 2.5
     }
     #[cfg(not(feature = "finalization"))]
     if !possible_cycles.is_empty() {
@@ -286,6 +292,7 @@ fn collect(state: &State, possible_cycles: &PossibleCycles) {
 
 fn __collect(state: &State, possible_cycles: &PossibleCycles) {
     let mut non_root_list = LinkedList::new();
+    #[cfg(kani)] let __um = crate::verif::unwind_mark(); // verification hook (H4): emulated unwinding, /verif/DESIGN.md 2.5
     {
         let mut root_list = LinkedList::new();
         let mut queue = LinkedQueue::new();
@@ -298,7 +305,9 @@ fn __collect(state: &State, possible_cycles: &PossibleCycles) {
         let _dropping_guard = replace_state_field!(dropping, false, state);
 
         trace_counting(possible_cycles, &mut root_list, &mut non_root_list, &mut queue);
+        #[cfg(kani)] if crate::verif::unwound(__um) { return; } // verification hook (H4): emulated unwinding, /verif/DESIGN.md 2.5
         trace_roots(root_list, &mut non_root_list, queue);
+        #[cfg(kani)] if crate::verif::unwound(__um) { return; } // verification hook (H4): emulated unwinding, /verif/DESIGN.md 2.5
     }
 
     if !non_root_list.is_empty() {
@@ -321,10 +330,12 @@ fn __collect(state: &State, possible_cycles: &PossibleCycles) {
                 let _finalizing_guard = replace_state_field!(finalizing, true, state);
 
                 has_finalized = non_root_list.iter().fold(false, |has_finalized, ptr| {
+                    #[cfg(kani)] if crate::verif::unwound(__um) { return has_finalized; } // verification hook (H4): emulated unwinding, /verif/DESIGN.md 2.5
                     non_root_list_size += 1;
                     CcBox::finalize_inner(ptr.cast()) || has_finalized
                 });
 
+                #[cfg(kani)] if crate::verif::unwound(__um) { return; } // verification hook (H4): emulated unwinding, /verif/DESIGN.md 2.5
                 // _finalizing_guard is dropped here, resetting state.finalizing
             }
 
@@ -405,6 +416,7 @@ fn deallocate_list(to_deallocate_list: LinkedList, state: &State) {
     }
 
     let _dropping_guard = replace_state_field!(dropping, true, state);
+    #[cfg(kani)] let __um = crate::verif::unwind_mark(); // verification hook (H4): emulated unwinding, /verif/DESIGN.md 2.5
 
     // Redefine to_deallocate_list with the ToDropList wrapper
     let to_deallocate_list = ToDropList {
@@ -413,6 +425,7 @@ fn deallocate_list(to_deallocate_list: LinkedList, state: &State) {
 
     // Drop every CcBox before deallocating them (see comment below)
     to_deallocate_list.iter().for_each(|ptr| {
+        #[cfg(kani)] if crate::verif::unwound(__um) { return; } // verification hook (H4): emulated unwinding, /verif/DESIGN.md 2.5
         // SAFETY: ptr is valid to access and drop in place
         unsafe {
             debug_assert!(ptr.as_ref().counter_marker().is_in_list());
@@ -422,6 +435,8 @@ fn deallocate_list(to_deallocate_list: LinkedList, state: &State) {
 
         // Don't deallocate now since next drop_inner calls will probably access this object while executing drop glues
     });
+
+    #[cfg(kani)] if crate::verif::unwound(__um) { return; } // verification hook (H4): emulated unwinding, /verif/DESIGN.md 2.5
 
     // Don't drop the list now if a panic happens
     // No panic should ever happen, however cc_dealloc could in theory panic if state is not accessible
@@ -458,14 +473,17 @@ fn trace_counting(
     non_root_list: &mut LinkedList,
     queue: &mut LinkedQueue,
 ) {
+    #[cfg(kani)] let __um = crate::verif::unwind_mark(); // verification hook (H4): emulated unwinding, /verif/DESIGN.md 2.5
     while let Some(ptr) = possible_cycles.remove_first() {
         // The tracing counter has already been reset by add_to_list(...)
         __trace_counting(ptr, root_list, non_root_list, queue);
+        #[cfg(kani)] if crate::verif::unwound(__um) { return; } // verification hook (H4): emulated unwinding, /verif/DESIGN.md 2.5
     }
 
     while let Some(ptr) = queue.poll() {
         // The tracing counter has already been reset by CcBox::trace when ptr was inserted into the queue
         __trace_counting(ptr, root_list, non_root_list, queue);
+        #[cfg(kani)] if crate::verif::unwound(__um) { return; } // verification hook (H4): emulated unwinding, /verif/DESIGN.md 2.5
     }
 
     debug_assert!(possible_cycles.is_empty());
@@ -491,7 +509,9 @@ fn __trace_counting(
         non_root_list,
         queue,
     });
+    #[cfg(kani)] let __um = crate::verif::unwind_mark(); // verification hook (H4): emulated unwinding, /verif/DESIGN.md 2.5
     CcBox::trace_inner(ptr, &mut ctx);
+    #[cfg(kani)] if crate::verif::unwound(__um) { return; } // verification hook (H4): emulated unwinding, /verif/DESIGN.md 2.5
 
     if counter_marker.counter() == counter_marker.tracing_counter() {
         non_root_list.add(ptr);
@@ -508,12 +528,15 @@ fn trace_roots(
     non_root_list: &mut LinkedList,
     mut queue: LinkedQueue,
 ) {
+    #[cfg(kani)] let __um = crate::verif::unwind_mark(); // verification hook (H4): emulated unwinding, /verif/DESIGN.md 2.5
     while let Some(ptr) = root_list.remove_first() {
         __trace_roots(ptr, non_root_list, &mut queue);
+        #[cfg(kani)] if crate::verif::unwound(__um) { return; } // verification hook (H4): emulated unwinding, /verif/DESIGN.md 2.5
     }
 
     while let Some(ptr) = queue.poll() {
         __trace_roots(ptr, non_root_list, &mut queue);
+        #[cfg(kani)] if crate::verif::unwound(__um) { return; } // verification hook (H4): emulated unwinding, /verif/DESIGN.md 2.5
     }
 
     debug_assert!(queue.is_empty());
